@@ -33,6 +33,10 @@ class SpecCtx:
         self.cur = cur
         self.names = dict(names)
         self.no_oblige = True
+        self.lemmas = []  # valid (definitional) facts produced while evaluating, e.g. one-step unfoldings
+
+    def lemma(self, fact):
+        self.lemmas.append(fact)
 
     # entry points ---------------------------------------------------------------
     def eval(self, src: str) -> Val:
@@ -43,7 +47,12 @@ class SpecCtx:
             v = self.ev(parse_spec(src), st)
             return self.ex.truthy(st, v)
 
-        return self._run(f, self.cur)
+        out = self._run(f, self.cur)
+        # definitional facts are valid in every state: record them where the formula is going to be used
+        for lm in self.lemmas:
+            self.cur.assume(lm)
+        self.lemmas = []
+        return out
 
     def eval_raw(self, src: str):
         return self.eval(src).t
@@ -109,8 +118,21 @@ class SpecCtx:
     def _generic(self, node, st):
         ex = self.ex
         if isinstance(node, ast.BoolOp):
-            vals = [ex.truthy(st, self.ev(v, st)) for v in node.values]
-            return Val(mkb(z3.And(vals) if isinstance(node.op, ast.And) else z3.Or(vals)), bool)
+            # python value semantics (no side effects in specs, so no short-circuit needed)
+            vs = [self.ev(v, st) for v in node.values]
+            if all(v.ty is bool for v in vs):
+                ts = [V.bval(v.t) for v in vs]
+                return Val(mkb(z3.And(ts) if isinstance(node.op, ast.And) else z3.Or(ts)), bool)
+            from .types import join_types
+
+            acc = vs[-1]
+            for v in reversed(vs[:-1]):
+                c = ex.truthy(st, v)
+                if isinstance(node.op, ast.And):
+                    acc = Val(z3.If(c, acc.t, v.t), join_types([acc.ty, v.ty]))
+                else:
+                    acc = Val(z3.If(c, v.t, acc.t), join_types([v.ty, acc.ty]))
+            return acc
         if isinstance(node, ast.UnaryOp) and isinstance(node.op, ast.Not):
             return Val(mkb(z3.Not(ex.truthy(st, self.ev(node.operand, st)))), bool)
         if isinstance(node, ast.IfExp):
